@@ -361,6 +361,14 @@ def lexer_eval(ctx, R):
     more.  At every yield, and where a lexical error is raised, curlineno() / curcolno() interpreted in the lexer's state of that moment
     must give the line / 1-based byte column of the first byte of the token (of the byte sequence that is no token).
     -> ("ok", n) | ("bad", text, what) | None when the interpreter cannot follow the code."""
+    if hasattr(ctx, "_lexer_eval"):
+        return ctx._lexer_eval
+    ctx._lexer_eval = None
+    ctx._lexer_eval = _lexer_eval(ctx, R)
+    return ctx._lexer_eval
+
+
+def _lexer_eval(ctx, R):
     from sa import fd
     from sa.consteval import Evaluator, TOP
     from sa.util import module_resolver
@@ -454,8 +462,8 @@ def lexer_eval(ctx, R):
             paths = it.run(env)
         except fd.TooManyPaths:
             return None
-        if not paths:
-            return None
+        if not paths or it.unknowns:
+            return None  # a call the interpreter could not follow (a generator it delegates to, a table of handlers ...)
         # the lexer is deterministic: two paths that differ in something else than the consumer's replay decision mean that the
         # interpreter had to guess a value
         sigs = [tuple(i for i, x in enumerate(p.events) if x[0] == "rewind") + (sum(1 for x in p.events if x[0] == "yield" and False),) for p in paths]
